@@ -74,11 +74,11 @@ func (c *clientStream) Header() (metadata.MD, error) {
 	}
 	return metadata.MD{}, nil
 }
-func (c *clientStream) Trailer() metadata.MD         { return metadata.MD{} }
-func (c *clientStream) CloseSend() error             { c.cancel(); return nil }
-func (c *clientStream) Context() context.Context     { return c.ctx }
-func (c *clientStream) SendMsg(any) error            { return nil }
-func (c *clientStream) RecvMsg(any) error            { return nil }
+func (c *clientStream) Trailer() metadata.MD     { return metadata.MD{} }
+func (c *clientStream) CloseSend() error         { c.cancel(); return nil }
+func (c *clientStream) Context() context.Context { return c.ctx }
+func (c *clientStream) SendMsg(any) error        { return nil }
+func (c *clientStream) RecvMsg(any) error        { return nil }
 
 type serverStream struct {
 	ctx  context.Context
@@ -185,8 +185,18 @@ func (cfg *Config) remoteWorkerFactory(remote *Remote) work.WorkerFactory {
 // ProcessRangeExported calls the exported Tier2Service.ProcessRange (validation and error mapping included) with
 // the given request, on the caller's goroutine, and returns its error (a gRPC status error or nil).
 func ProcessRangeExported(ctx context.Context, cfg *Config, in *pbssinternal.ProcessRangeRequest) error {
+	return ProcessRangeExportedSeq(ctx, cfg, 0, in)[0]
+}
+
+// ProcessRangeExportedSeq sends the requests one after the other (never two at a time) to one tier2 service that
+// admits `limit` concurrent requests (0 = no limit) and returns their errors.
+func ProcessRangeExportedSeq(ctx context.Context, cfg *Config, limit uint64, ins ...*pbssinternal.ProcessRangeRequest) []error {
 	registerOnce.Do(dmetering.RegisterNull)
-	svc := service.VerifNewTier2(cfg.streamFactory(true), 0)
-	ss := &serverStream{ctx: ctx, send: func(*pbssinternal.ProcessRangeResponse) error { return nil }}
-	return svc.ProcessRange(in, ss)
+	svc := service.VerifNewTier2(cfg.streamFactory(true), limit)
+	var errs []error
+	for _, in := range ins {
+		ss := &serverStream{ctx: ctx, send: func(*pbssinternal.ProcessRangeResponse) error { return nil }}
+		errs = append(errs, svc.ProcessRange(in, ss))
+	}
+	return errs
 }
